@@ -567,10 +567,15 @@ func (vm *Thread) run() {
 			vm.opPromise()
 		case bytecode.AWAIT:
 			promise := (*Promise)(vm.peek().Pointer())
+			verifYield()
+			verifEvent("aw", promise, nil)
 			promise.m.Lock()
+			verifEvent("awl", promise, nil)
+			verifYield()
 
 			if !promise.IsResolved() {
 				// promise is not resolved, switching contexts
+				verifEvent("aws", promise, nil)
 				vm.state = awaitState
 				return
 			}
@@ -579,6 +584,7 @@ func (vm *Thread) run() {
 			err := promise.err
 			result := promise.result
 			stackTrace := promise.stackTrace
+			verifEvent("awr", promise, nil)
 			promise.m.Unlock()
 
 			if !err.IsUndefined() {
